@@ -14,7 +14,9 @@ type ViaParam struct {
 	Transport       string
 	Host            string
 	port            int
-	Params          []KeyValue
+	// the sent-by port as it was written ("" if none or set programmatically): re-encoded verbatim
+	portText string
+	Params   []KeyValue
 }
 
 type Via struct {
@@ -139,7 +141,9 @@ func (vp *ViaParam) String() string {
 	buf := bytes.NewBuffer(make([]byte, 0))
 
 	fmt.Fprintf(buf, "%s/%s/%s %s", vp.ProtocolName, vp.ProtocolVersion, vp.Transport, vp.Host)
-	if vp.port != 0 {
+	if vp.port != 0 && vp.portText != "" {
+		fmt.Fprintf(buf, ":%s", vp.portText)
+	} else if vp.port != 0 {
 		fmt.Fprintf(buf, ":%d", vp.port)
 	}
 	for _, param := range vp.Params {
@@ -194,6 +198,7 @@ func parseViaParam(viaParam string) (*ViaParam, error) {
 			return nil, err
 		}
 		via.port = port
+		via.portText = sentBy[1]
 	} else {
 		via.port = 0
 	}
